@@ -540,17 +540,20 @@ Proof.
   cbn [flat_map app filter fst fname_eqb]. rewrite IH. cbn. rewrite andb_false_r. reflexivity.
 Qed.
 
-Lemma exec_result_step : forall lv rws s,
+(* one level, from ANY state of its result files: a result file that is absent is created by the first append (no
+   header: the model's content is the rows), and stays absent when the level has no row at all *)
+Lemma exec_result_step_any : forall lv rws s,
   cget s (NLevel lv ext) = Some (fs_plain rws) ->
-  (forall d, (d = true -> fg_decoys g = true) -> cget s (NResult pfx d lv) <> None) ->
   exists s', cexec (result_step g pfx (lv, rws)) s = Some s' /\
     forall n, cget s' n =
       if fname_eqb (NLevel lv ext) n then None
-      else if fname_eqb (NResult pfx false lv) n then Some (old_or_nil s n ++ side false rws)
-      else if fname_eqb (NResult pfx true lv) n && fg_decoys g then Some (old_or_nil s n ++ side true rws)
+      else if fname_eqb (NResult pfx false lv) n
+           then (if nilb rws then cget s n else Some (old_or_nil s n ++ side false rws))
+      else if fname_eqb (NResult pfx true lv) n && fg_decoys g
+           then (if nilb rws then cget s n else Some (old_or_nil s n ++ side true rws))
       else cget s n.
 Proof.
-  intros lv rws s Hlvl Hres. unfold result_step. fold c ext.
+  intros lv rws s Hlvl. unfold result_step. fold c ext.
   set (bs := seq 0 (length (pc_chunks c rws))).
   set (rq := combine rws (cf_qvalues rws)).
   replace (flat_map _ bs) with (map (fun it : fname * cfn => OAppend (fst it) [NLevel lv ext] (snd it)) (res_items lv bs)).
@@ -577,27 +580,48 @@ Proof.
     rewrite concat_nth_seq0.
     - apply chunks_concat. unfold c. lia.
     - rewrite (chunks_len c rq rws); [apply le_n|]. unfold rq. rewrite combine_length, qvalues_length. lia. }
-  assert (Hempty : bs = [] -> forall d, side d rws = []).
-  { intros Hb d. unfold bs in Hb. assert (Hr : rws = []).
-    { destruct (pc_chunks c rws) eqn:E; [|discriminate]. rewrite <- (chunks_concat c rws) by (unfold c; lia). rewrite E. reflexivity. }
-    subst rws. reflexivity. }
+  assert (Hnil : nilb bs = nilb rws).
+  { unfold bs. destruct rws as [|x xs]; reflexivity. }
   intro n. rewrite fs_get_del. destruct (fname_eqb (NLevel lv ext) n) eqn:EL; [reflexivity|].
   rewrite Hs1.
   destruct (fname_eqb (NResult pfx false lv) n) eqn:E0.
   - apply fname_eqb_eq in E0. subst n. rewrite it_of_res by discriminate.
-    rewrite nilb_map. destruct (nilb bs) eqn:Enb.
-    + apply nilb_true in Enb. rewrite (Hempty Enb), app_nil_r. unfold old_or_nil.
-      destruct (cget s (NResult pfx false lv)) eqn:Eg; [reflexivity|]. exfalso. apply (Hres false); [discriminate | exact Eg].
-    + rewrite Hsum. reflexivity.
+    rewrite nilb_map, Hnil. destruct (nilb rws); [reflexivity|]. rewrite Hsum. reflexivity.
   - destruct (fname_eqb (NResult pfx true lv) n) eqn:E1; cbn [andb].
     + apply fname_eqb_eq in E1. subst n. destruct (fg_decoys g) eqn:Ed.
       * rewrite it_of_res by (intros _; exact Ed).
-        rewrite nilb_map. destruct (nilb bs) eqn:Enb.
-        -- apply nilb_true in Enb. rewrite (Hempty Enb), app_nil_r. unfold old_or_nil.
-           destruct (cget s (NResult pfx true lv)) eqn:Eg; [reflexivity|]. exfalso. apply (Hres true); [intros _; reflexivity | exact Eg].
-        -- rewrite Hsum. reflexivity.
+        rewrite nilb_map, Hnil. destruct (nilb rws); [reflexivity|]. rewrite Hsum. reflexivity.
       * rewrite it_of_res_nodecoy by exact Ed. reflexivity.
     + rewrite it_of_res_other; [reflexivity | |]; intros ->; rewrite fname_eqb_refl in *; discriminate.
+Qed.
+
+Lemma side_nil : forall d, side d [] = [].
+Proof. intro d. reflexivity. Qed.
+
+(* ... when the result files of the level are present (they always are unless the caller asked for appending) *)
+Lemma exec_result_step : forall lv rws s,
+  cget s (NLevel lv ext) = Some (fs_plain rws) ->
+  (forall d, (d = true -> fg_decoys g = true) -> cget s (NResult pfx d lv) <> None) ->
+  exists s', cexec (result_step g pfx (lv, rws)) s = Some s' /\
+    forall n, cget s' n =
+      if fname_eqb (NLevel lv ext) n then None
+      else if fname_eqb (NResult pfx false lv) n then Some (old_or_nil s n ++ side false rws)
+      else if fname_eqb (NResult pfx true lv) n && fg_decoys g then Some (old_or_nil s n ++ side true rws)
+      else cget s n.
+Proof.
+  intros lv rws s Hlvl Hres. destruct (exec_result_step_any lv rws s Hlvl) as [s' [He Hs']].
+  exists s'. split; [exact He|]. intro n. rewrite Hs'.
+  destruct (fname_eqb (NLevel lv ext) n); [reflexivity|].
+  assert (Hfix : forall d, (d = true -> fg_decoys g = true) -> n = NResult pfx d lv ->
+            (if nilb rws then cget s n else Some (old_or_nil s n ++ side d rws)) = Some (old_or_nil s n ++ side d rws)).
+  { intros d Hd ->. destruct (nilb rws) eqn:En; [|reflexivity]. apply nilb_true in En. subst rws.
+    rewrite side_nil, app_nil_r. unfold old_or_nil.
+    destruct (cget s (NResult pfx d lv)) eqn:Eg; [reflexivity|]. exfalso. apply (Hres d Hd). exact Eg. }
+  destruct (fname_eqb (NResult pfx false lv) n) eqn:E0.
+  - apply fname_eqb_eq in E0. apply (Hfix false); [discriminate | symmetry; exact E0].
+  - destruct (fname_eqb (NResult pfx true lv) n) eqn:E1; cbn [andb]; [|reflexivity].
+    destruct (fg_decoys g) eqn:Ed; [|reflexivity].
+    apply fname_eqb_eq in E1. apply (Hfix true); [intros _; reflexivity | symmetry; exact E1].
 Qed.
 End Coll.
 
@@ -655,6 +679,29 @@ Definition coll_effect_p (g : fs_cfg) (ap : bool) (cl : fs_coll) (v : fview) : f
   | NResult p d lv =>
       if (p =? pfx)%Z && (lv <? fs_nres g) && (negb d || fg_decoys g)
       then Some ((if ap then match v n with Some o => o | None => [] end else []) ++ side d (nth lv (coll_all_levels g cl) []))
+      else v n
+  | _ => v n
+  end.
+
+(* the same from ANY state of the result files (append mode does not create them: [OAppend] = open(.., 'a') does, at the
+   first append, and then the file holds rows only; a level without any row appends nothing) *)
+Definition coll_effect_a (g : fs_cfg) (ap : bool) (cl : fs_coll) (v : fview) : fview :=
+  let pfx := fc_pfx cl in
+  let rows := fc_rows cl in
+  fun n =>
+  match n with
+  | NChunk p i e =>
+      if (p =? pfx)%Z && Bool.eqb e (fg_ext g) && (i <? length (fs_chunk_rows g rows)) then None else v n
+  | NLevel lv e => if Bool.eqb e (fg_ext g) && (lv <? fs_nres g) then None else v n
+  | NResult p d lv =>
+      if (p =? pfx)%Z && (lv <? fs_nres g) && (negb d || fg_decoys g)
+      then if ap
+           then match v n with
+                | Some o => Some (o ++ side d (nth lv (coll_all_levels g cl) []))
+                | None => if nilb (nth lv (coll_all_levels g cl) []) then None
+                          else Some (side d (nth lv (coll_all_levels g cl) []))
+                end
+           else Some (side d (nth lv (coll_all_levels g cl) []))
       else v n
   | _ => v n
   end.
@@ -717,6 +764,18 @@ Definition own_result_p (g : fs_cfg) (cl : fs_coll) (n : fname) : bool := own_re
 
 Lemma own_result_p_noprot : forall g cl n, fg_proteins g = false -> own_result_p g cl n = own_result g cl n.
 Proof. intros g cl n H. unfold own_result_p, own_result. rewrite (fs_nres_noprot g H). reflexivity. Qed.
+
+(* where the result files the collection appends to are present, the two effects are the same *)
+Lemma coll_effect_a_present : forall g ap cl v n,
+  (ap = true -> own_result_p g cl n = true -> v n <> None) ->
+  coll_effect_a g ap cl v n = coll_effect_p g ap cl v n.
+Proof.
+  intros g ap cl v n H. unfold coll_effect_a, coll_effect_p.
+  destruct n as [p i e | lv e | p d lv | p | p | z]; try reflexivity.
+  destruct ((p =? fc_pfx cl)%Z && (lv <? fs_nres g) && (negb d || fg_decoys g)) eqn:Eo; [|reflexivity].
+  destruct ap; [|reflexivity].
+  destruct (v (NResult p d lv)) eqn:Ev; [reflexivity|]. exfalso. apply (H eq_refl Eo). reflexivity.
+Qed.
 
 Section Coll2.
 Variable g : fs_cfg.
@@ -785,27 +844,29 @@ Fixpoint assoc_lv (lv : nat) (l : list (nat * list cf_row)) : option (list cf_ro
   | (x, r) :: t => if Nat.eqb x lv then Some r else assoc_lv lv t
   end.
 
-Lemma exec_result_steps : forall l s, NoDup (map fst l) ->
+(* all levels, from ANY state of the result files *)
+Lemma exec_result_steps_any : forall l s, NoDup (map fst l) ->
   (forall lv rws, In (lv, rws) l -> cget s (NLevel lv ext) = Some (fs_plain rws)) ->
-  (forall lv rws d, In (lv, rws) l -> (d = true -> fg_decoys g = true) -> cget s (NResult pfx d lv) <> None) ->
   exists s', cexec (flat_map (result_step g pfx) l) s = Some s' /\
     forall n, cget s' n =
       match n with
       | NLevel lv e => if Bool.eqb e ext then match assoc_lv lv l with Some _ => None | None => cget s n end else cget s n
       | NResult p d lv =>
           if (p =? pfx)%Z && (negb d || fg_decoys g)
-          then match assoc_lv lv l with Some rws => Some (old_or_nil s n ++ side d rws) | None => cget s n end
+          then match assoc_lv lv l with
+               | Some rws => if nilb rws then cget s n else Some (old_or_nil s n ++ side d rws)
+               | None => cget s n
+               end
           else cget s n
       | _ => cget s n
       end.
 Proof.
-  induction l as [|[lv rws] r IH]; intros s Hnd Hlv Hres.
+  induction l as [|[lv rws] r IH]; intros s Hnd Hlv.
   - exists s. split; [reflexivity|]. intro n. destruct n as [p i e | lv e | p d lv | p | p | z]; try reflexivity; cbn [assoc_lv];
       [destruct (Bool.eqb e ext) | destruct ((p =? pfx)%Z && (negb d || fg_decoys g))]; reflexivity.
   - cbn [map fst] in Hnd. inversion Hnd as [|? ? Hnot Hnd']; subst.
     cbn [flat_map]. rewrite cexec_app.
-    destruct (exec_result_step g Hc pfx lv rws s (Hlv lv rws (or_introl eq_refl))) as [s1 [He1 Hs1]].
-    { intros d Hd. apply (Hres lv rws d (or_introl eq_refl) Hd). }
+    destruct (exec_result_step_any g Hc pfx lv rws s (Hlv lv rws (or_introl eq_refl))) as [s1 [He1 Hs1]].
     rewrite He1.
     assert (Hother : forall lv' rws', In (lv', rws') r -> lv' <> lv).
     { intros lv' rws' Hin ->. apply Hnot. apply in_map_iff. exists (lv, rws'). split; [reflexivity | exact Hin]. }
@@ -814,13 +875,6 @@ Proof.
       replace (fname_eqb (NLevel lv ext) (NLevel lv' ext)) with false
         by (symmetry; apply fname_eqb_neq; congruence).
       cbn [fname_eqb andb]. apply Hlv. right. exact Hin. }
-    { intros lv' rws' d Hin Hd. rewrite Hs1. pose proof (Hother lv' rws' Hin) as N.
-      replace (fname_eqb (NLevel lv ext) (NResult pfx d lv')) with false by reflexivity.
-      replace (fname_eqb (NResult pfx false lv) (NResult pfx d lv')) with false
-        by (symmetry; apply fname_eqb_neq; congruence).
-      replace (fname_eqb (NResult pfx true lv) (NResult pfx d lv')) with false
-        by (symmetry; apply fname_eqb_neq; congruence).
-      cbn [andb]. apply (Hres lv' rws' d (or_intror Hin) Hd). }
     exists s'. split; [exact He|]. intro n. rewrite Hs'.
     destruct n as [p i e | lv' e | p d lv' | p | p | z]; cbn [assoc_lv]; try (rewrite Hs1; reflexivity).
     + (* level files *)
@@ -868,6 +922,40 @@ Proof.
         destruct (fname_eqb (NResult pfx true lv) (NResult p d lv')) eqn:E1; cbn [andb]; [|reflexivity].
         apply fname_eqb_eq in E1. inversion E1; subst. destruct Eo as [Eo|Eo]; [rewrite Z.eqb_refl in Eo; discriminate|].
         cbn [negb orb] in Eo. rewrite Eo. reflexivity.
+Qed.
+
+Lemma assoc_lv_In : forall l lv rws, assoc_lv lv l = Some rws -> In (lv, rws) l.
+Proof.
+  induction l as [|[x r] t IH]; intros lv rws H; cbn [assoc_lv] in H; [discriminate|].
+  destruct (Nat.eqb x lv) eqn:E; [|right; apply IH; exact H].
+  apply Nat.eqb_eq in E. inversion H; subst. left. reflexivity.
+Qed.
+
+(* ... when the result files are present *)
+Lemma exec_result_steps : forall l s, NoDup (map fst l) ->
+  (forall lv rws, In (lv, rws) l -> cget s (NLevel lv ext) = Some (fs_plain rws)) ->
+  (forall lv rws d, In (lv, rws) l -> (d = true -> fg_decoys g = true) -> cget s (NResult pfx d lv) <> None) ->
+  exists s', cexec (flat_map (result_step g pfx) l) s = Some s' /\
+    forall n, cget s' n =
+      match n with
+      | NLevel lv e => if Bool.eqb e ext then match assoc_lv lv l with Some _ => None | None => cget s n end else cget s n
+      | NResult p d lv =>
+          if (p =? pfx)%Z && (negb d || fg_decoys g)
+          then match assoc_lv lv l with Some rws => Some (old_or_nil s n ++ side d rws) | None => cget s n end
+          else cget s n
+      | _ => cget s n
+      end.
+Proof.
+  intros l s Hnd Hlv Hres. destruct (exec_result_steps_any l s Hnd Hlv) as [s' [He Hs']].
+  exists s'. split; [exact He|]. intro n. rewrite Hs'.
+  destruct n as [p i e | lv e | p d lv | p | p | z]; try reflexivity.
+  destruct ((p =? pfx)%Z && (negb d || fg_decoys g)) eqn:Eo; [|reflexivity].
+  destruct (assoc_lv lv l) as [rws|] eqn:Ea; [|reflexivity].
+  destruct (nilb rws) eqn:En; [|reflexivity].
+  apply nilb_true in En. subst rws. apply andb_true_iff in Eo. destruct Eo as [Ep Ed]. apply Z.eqb_eq in Ep. subst p.
+  rewrite side_nil, app_nil_r. unfold old_or_nil.
+  destruct (cget s (NResult pfx d lv)) eqn:Eg; [reflexivity|]. exfalso.
+  apply (Hres lv [] d (assoc_lv_In _ _ _ Ea)); [|exact Eg]. intros ->. exact Ed.
 Qed.
 End Coll2.
 
@@ -963,16 +1051,15 @@ Proof.
   - exists sD. split; [reflexivity|]. rewrite app_nil_r. split; [exact HD | intros; reflexivity].
 Qed.
 
-(* one collection, with or without protein level, from ANY directory: if the recorded oracle value belongs to this run's
+(* one collection, with or without protein level, from ANY directory, whatever the state of its result files: if the recorded oracle value belongs to this run's
    peptide level the operations succeed and end in [coll_effect_p]; otherwise the picked-protein step raises *)
-Theorem coll_exec_p : forall ap s, prot_ok g cl ->
-  (ap = true -> forall n, own_result_p g cl n = true -> cget s n <> None) ->
+Theorem coll_exec_a : forall ap s, prot_ok g cl ->
   if prot_key_ok g cl
   then exists s', cexec (fs_coll_ops g ap cl) s = Some s' /\
-         forall n, cget s' n = coll_effect_p g ap cl (cget s) n
+         forall n, cget s' n = coll_effect_a g ap cl (cget s) n
   else cexec (fs_coll_ops g ap cl) s = None.
 Proof.
-  intros ap s Hok Hap. rewrite (coll_ops_shape_g g ap cl Hg). rewrite cexec_app.
+  intros ap s Hok. rewrite (coll_ops_shape_g g ap cl Hg). rewrite cexec_app.
   destruct (exec_inits_p g Hc cl ap s) as [sA [HeA HsA]]. rewrite HeA. rewrite cexec_app.
   destruct (exec_chunk_ops g Hc pfx rows sA) as [sB [HeB [HgB HsB]]]. rewrite HeB. rewrite cexec_app, cexec_app.
   destruct (exec_level_ops g Hc pfx rows sB HgB) as [sC [HeC [HlC HsC]]]. rewrite HeC.
@@ -996,19 +1083,11 @@ Proof.
   assert (HP_pre : forall n, (forall lv, lv < fs_nres g -> n <> NLevel lv ext) ->
             cget sP n = if fs_mem n names then None else if negb ap && own_result_p g cl n then Some [] else cget s n).
   { intros n Hn. rewrite (HP_other n Hn). apply HD_other. intros lv Hlv. apply Hn. lia. }
-  destruct (exec_result_steps g Hc cl (combine (seq 0 (fs_nres g)) (coll_all_levels g cl)) sP) as [sE [HeE HsE]].
+  destruct (exec_result_steps_any g Hc cl (combine (seq 0 (fs_nres g)) (coll_all_levels g cl)) sP) as [sE [HeE HsE]].
   { apply nodup_fst_combine, seq_NoDup. }
   { intros lv rws Hin. rewrite <- Hlen in Hin.
     destruct (in_combine_seq_nth g Hc (coll_all_levels g cl) [] 0 lv rws Hin) as [Hr ->].
     rewrite Nat.sub_0_r. apply HP_level. lia. }
-  { intros lv rws d Hin Hd. rewrite <- Hlen in Hin.
-    destruct (in_combine_seq_nth g Hc (coll_all_levels g cl) [] 0 lv rws Hin) as [Hr _]. rewrite Hlen in Hr.
-    rewrite HP_pre by (intros; discriminate). rewrite fs_mem_chunk_names.
-    assert (Hown : own_result_p g cl (NResult pfx d lv) = true).
-    { unfold own_result_p. cbn [own_result_k]. rewrite Z.eqb_refl.
-      replace (lv <? fs_nres g) with true by (symmetry; apply Nat.ltb_lt; lia).
-      destruct d; cbn; [apply Hd; reflexivity | reflexivity]. }
-    rewrite Hown. destruct ap; cbn [negb andb]; [apply (Hap eq_refl); exact Hown | discriminate]. }
   rewrite result_ops_eq_gen, res_levels_seq. exists sE. split; [exact HeE|].
   assert (Hassoc : forall lv, assoc_lv lv (combine (seq 0 (fs_nres g)) (coll_all_levels g cl)) =
                               if lv <? fs_nres g then Some (nth lv (coll_all_levels g cl) []) else None).
@@ -1016,7 +1095,7 @@ Proof.
     cbn [Nat.leb andb Nat.add]. rewrite Nat.sub_0_r. reflexivity. }
   assert (Hnown : forall n, is_result n = false -> own_result_p g cl n = false).
   { intros n Hn. destruct n; try reflexivity. discriminate. }
-  intro n. rewrite HsE. unfold coll_effect_p.
+  intro n. rewrite HsE. unfold coll_effect_a.
   destruct n as [p i e | lv e | p d lv | p | p | z].
   - (* chunk files *)
     rewrite HP_pre by (intros; discriminate). rewrite fs_mem_chunk_names.
@@ -1036,11 +1115,28 @@ Proof.
     destruct ((p =? pfx)%Z) eqn:Ep; cbn [andb]; [|rewrite andb_false_r; reflexivity].
     destruct (lv <? fs_nres g) eqn:El; cbn [andb].
     + destruct (negb d || fg_decoys g) eqn:Ed; cbn [andb]; [|rewrite andb_false_r; reflexivity].
-      destruct ap; cbn [negb andb]; reflexivity.
+      destruct ap; cbn [negb andb].
+      * destruct (cget s (NResult p d lv)) as [o|]; destruct (nilb (nth lv (coll_all_levels g cl) [])) eqn:En; try reflexivity.
+        apply nilb_true in En. rewrite En, side_nil, app_nil_r. reflexivity.
+      * destruct (nilb (nth lv (coll_all_levels g cl) [])) eqn:En; [|reflexivity].
+        apply nilb_true in En. rewrite En, side_nil. reflexivity.
     + destruct (negb d || fg_decoys g); rewrite andb_false_r; reflexivity.
   - rewrite HP_pre by (intros; discriminate). rewrite fs_mem_chunk_names, Hnown by reflexivity. rewrite andb_false_r. reflexivity.
   - rewrite HP_pre by (intros; discriminate). rewrite fs_mem_chunk_names, Hnown by reflexivity. rewrite andb_false_r. reflexivity.
   - rewrite HP_pre by (intros; discriminate). rewrite fs_mem_chunk_names, Hnown by reflexivity. rewrite andb_false_r. reflexivity.
+Qed.
+
+(* ... when the result files the collection appends to are present: the effect [coll_effect_p] *)
+Theorem coll_exec_p : forall ap s, prot_ok g cl ->
+  (ap = true -> forall n, own_result_p g cl n = true -> cget s n <> None) ->
+  if prot_key_ok g cl
+  then exists s', cexec (fs_coll_ops g ap cl) s = Some s' /\
+         forall n, cget s' n = coll_effect_p g ap cl (cget s) n
+  else cexec (fs_coll_ops g ap cl) s = None.
+Proof.
+  intros ap s Hok Hap. pose proof (coll_exec_a ap s Hok) as H.
+  destruct (prot_key_ok g cl); [|exact H]. destruct H as [s' [He Hs']]. exists s'. split; [exact He|].
+  intro n. rewrite Hs'. apply coll_effect_a_present. intros E Hn. apply (Hap E n Hn).
 Qed.
 End Coll3.
 
